@@ -88,9 +88,16 @@ def attempt(job, strat, timeout):
         subs += [(None, None, a) for a in range(1 if has_ev else 0, nalt)]
     else:
         subs = [(None, None, None)]
+    if ix.get('copy_modes') and 'k' in strat:
+        # C15: one query per copy operation and per driven machine
+        subs = [(k, g, (sel, cm, w)) for (k, g, sel) in subs for cm in ix['copy_modes'] for w in ((0, 1) if cm < 2 else (1,))]
     def one(sub):
         k, gfix, sel = sub
-        xtra = ['-DVF_SEL=%d' % sel] if sel is not None else []
+        xtra = []
+        if isinstance(sel, tuple):
+            sel, cm, w = sel
+            xtra += ['-DVF_CMODE=%d' % cm, '-DVF_WHICH=%d' % w]
+        if sel is not None: xtra += ['-DVF_SEL=%d' % sel]
         r = cbmc_once(job, strat, k, True, False, timeout, gfix, xtra)
         if r['verdict'] == 'failed' and any('witness:reachable' not in f[1] for f in r['failed']):
             # obtain one counterexample per failed assertion
@@ -99,7 +106,7 @@ def attempt(job, strat, timeout):
             r['time'] += r2['time']
         return r
     if len(subs) == 1: return merge_results([one(subs[0])])
-    with cf.ThreadPoolExecutor(min(8, len(subs))) as ex:
+    with cf.ThreadPoolExecutor(min(12, len(subs))) as ex:
         rs = list(ex.map(one, subs))
     return merge_results(rs)
 
